@@ -138,7 +138,7 @@ def gen_edfa_el(rng, uid, libnames, imposable, span):
     return el
 
 
-def gen_fiber_el(rng, uid, short=False, vector_loss=False):
+def gen_fiber_el(rng, uid, short=False, vector_loss=False, raman=False):
     length = rng.choice([rng.uniform(1, 40), rng.uniform(30, 90), rng.uniform(60, 135), rng.choice([20, 40, 50, 80, 100])])
     if short:
         length = rng.uniform(1, 45)
@@ -163,6 +163,18 @@ def gen_fiber_el(rng, uid, short=False, vector_loss=False):
         p['att_in'] = rng.choice([0, 1, 2, 3.5])
     if rng.random() < 0.05 and p['length'] > 4:
         p['lumped_losses'] = [{'position': round(p['length'] / 2, 3), 'loss': rng.choice([0.5, 1, 2])}]
+    if raman:
+        # a RamanFiber needs its connectors at construction; scalar loss coefficient, 50-120 km, counter-propagating pumps
+        p['length'] = round(rng.uniform(50, 120), 1)
+        p['loss_coef'] = rng.choice([0.2, 0.19, 0.21, 0.22])
+        p['con_in'] = rng.choice([0, 0.5])
+        p['con_out'] = rng.choice([0, 0.5])
+        p.pop('lumped_losses', None)
+        k = rng.choice([0.6, 0.8, 1.0, 1.2])
+        return {'uid': uid, 'type': 'RamanFiber', 'type_variety': 'SSMF', 'params': p,
+                'operational': {'temperature': 283,
+                                'raman_pumps': [{'power': round(0.2 * k, 4), 'frequency': 205e12, 'propagation_direction': 'counterprop'},
+                                                {'power': round(0.206 * k, 4), 'frequency': 201e12, 'propagation_direction': 'counterprop'}]}}
     return {'uid': uid, 'type': 'Fiber', 'type_variety': 'SSMF', 'params': p}
 
 
@@ -184,14 +196,15 @@ def gen_line(rng, tag, libnames, imposable, span, from_roadm, to_roadm, vector_l
     for s in range(nspans):
         shape = rng.random()
         short = rng.random() < 0.25
+        ram = rng.random() < 0.06
         if shape < 0.7:
-            els.append(gen_fiber_el(rng, uid('fiber'), short, vector_loss))
+            els.append(gen_fiber_el(rng, uid('fiber'), short, vector_loss and not ram, raman=ram))
         elif shape < 0.85:
             els.append(gen_fiber_el(rng, uid('fiber'), short, vector_loss))
             els.append({'uid': uid('fused'), 'type': 'Fused', 'params': {'loss': rng.choice([0.3, 0.5, 1, 1.5])}})
             if rng.random() < 0.3:
                 els.append({'uid': uid('fused'), 'type': 'Fused', 'params': {'loss': rng.choice([0.2, 1])}})
-            els.append(gen_fiber_el(rng, uid('fiber'), True, vector_loss))
+            els.append(gen_fiber_el(rng, uid('fiber'), True, vector_loss and not ram, raman=ram))
         else:
             els.append(gen_fiber_el(rng, uid('fiber'), short, vector_loss))
             els.append({'uid': uid('fused'), 'type': 'Fused', 'params': {'loss': rng.choice([0.3, 0.5, 1])}})
@@ -286,6 +299,17 @@ def gen_case(rng, for_c10=False):
                 prev = e['uid']
             cx.append((prev, f'trx {t}'))
         els += [{'uid': 'trx X', 'type': 'Transceiver'}, {'uid': 'trx Y', 'type': 'Transceiver'}]
+    if nroadm >= 1 and rng.random() < 0.35:              # mixed OMS: ROADM -> Transceiver and Transceiver -> ROADM
+        r_ = rng.choice(names)
+        for (tag, a, b_, fr, to) in ((f'{r_}Z', f'roadm {r_}', 'trx Z', True, False), (f'Z{r_}', 'trx Z', f'roadm {r_}', False, True)):
+            l = gen_line(rng, tag, libnames, imposable, span, fr, to, for_c10)
+            prev = a
+            for e in l:
+                els.append(e)
+                cx.append((prev, e['uid']))
+                prev = e['uid']
+            cx.append((prev, b_))
+        els.append({'uid': 'trx Z', 'type': 'Transceiver'})
     topo = {'elements': els, 'connections': [{'from_node': a, 'to_node': b} for a, b in cx]}
     return {'seed': rng.getrandbits(32), 'edfa': lib, 'span': span, 'si': si, 'roadm': roadm_lib, 'topo': topo}
 
@@ -329,13 +353,14 @@ def oms_chains(net):
 def snapshot_elem(n):
     from gnpy.core import elements as E
     import numpy as np
-    if isinstance(n, (E.RamanFiber, E.Multiband_amplifier)):
+    if isinstance(n, E.Multiband_amplifier):
         return {'t': 'unsupported', 'uid': n.uid}
     if isinstance(n, E.Fiber):
         lumped = sum(float(x['loss']) for x in n.params.lumped_losses) if len(n.params.lumped_losses) else 0.0
         lin = float(n.loss_coef_func(n.params.ref_frequency) * n.params.length) + lumped
         return {'t': 'fiber', 'uid': n.uid, 'lin': lin, 'con_in': n.params.con_in, 'con_out': n.params.con_out,
-                'att_in': float(n.params.att_in), 'loss_coef': [float(x) for x in np.atleast_1d(n.params.loss_coef)]}
+                'att_in': float(n.params.att_in), 'loss_coef': [float(x) for x in np.atleast_1d(n.params.loss_coef)],
+                'raman': isinstance(n, E.RamanFiber)}
     if isinstance(n, E.Fused):
         return {'t': 'fused', 'uid': n.uid, 'loss': float(n.loss)}
     if isinstance(n, E.Edfa):
@@ -365,6 +390,20 @@ def design(built):
     def wrap_e(network, this_node, *a, **k):
         progress.append(this_node.uid)
         return orig_e(network, this_node, *a, **k)
+    est = {}
+    orig_g = nw.estimate_raman_gain
+
+    def wrap_g(node, equipment, power_dbm):
+        had = hasattr(node, 'estimated_gain')
+        r = orig_g(node, equipment, power_dbm)
+        if type(node).__name__ == 'RamanFiber':
+            d = est.setdefault(node.uid, {'ref': [], 'cached_calls': 0})
+            if power_dbm is None and not had:
+                d['ref'].append(float(r))          # estimate at the reference power, rounded, not recorded by gnpy
+            elif had:
+                d['cached_calls'] += 1
+        return r
+    nw.estimate_raman_gain = wrap_g
     nw.select_edfa = wrap_s
     nw.set_egress_amplifier = wrap_e
     built['status'] = 'ok'
@@ -378,6 +417,18 @@ def design(built):
     finally:
         nw.select_edfa = orig_s
         nw.set_egress_amplifier = orig_e
+        nw.estimate_raman_gain = orig_g
+    # the two Raman gain estimates of every RamanFiber (inputs of the model)
+    for o in built['oms']:
+        for n, sn in zip(o['nodes'], o['snap']):
+            if sn.get('raman'):
+                d = est.get(n.uid, {'ref': []})
+                cached = getattr(n, 'estimated_gain', None)
+                if d['ref'] and max(d['ref']) - min(d['ref']) > 1e-12:
+                    built['raman_ref_unstable'] = True
+                gref = d['ref'][0] if d['ref'] else (round(float(cached), 2) if cached is not None else 0.0)
+                sn['g_ref'] = gref
+                sn['g_cached'] = float(cached) if cached is not None else gref
     built['nf'] = nf
     built['progress'] = progress
     si = built['case']['si']
@@ -494,6 +545,9 @@ def lib_lit(eq):
 
 
 def elem_lit(s, nf):
+    if s['t'] == 'fiber' and s.get('raman'):
+        return (f"rrf {qlit(s['lin'])} {oq(s['con_in'])} {oq(s['con_out'])} {qlit(s['att_in'])} "
+                f"{listlit([qlit(x) for x in s['loss_coef']])} {qlit(s['g_ref'])} {qlit(s['g_cached'])}")
     if s['t'] == 'fiber':
         return (f"rf {qlit(s['lin'])} {oq(s['con_in'])} {oq(s['con_out'])} {qlit(s['att_in'])} "
                 f"{listlit([qlit(x) for x in s['loss_coef']])}")
@@ -699,6 +753,8 @@ def run(ctx):
                     ctx.count('fibre_padded')
                 if s_['con_in'] is None or s_['con_out'] is None:
                     ctx.count('fibre_default_connector')
+                if s_.get('raman'):
+                    ctx.count('fibre_raman')
             ctx.count('fused', sum(1 for x in o['snap'] if x['t'] == 'fused'))
             for s_, a_ in zip([x for x in o['snap'] if x['t'] == 'edfa'], o['amps']):
                 ctx.count('amp_variety_imposed' if s_['variety'] else ('amp_variety_list' if s_['vlist'] else 'amp_variety_auto'))
@@ -758,8 +814,10 @@ def run(ctx):
                                case)
             # ---- oracle 1: the documented rule and the budget on the designed values themselves
             oracle_static(ctx, c, built, o, p0, pref_ch, o['pref_total'], desc, case)
-            # ---- oracle 2: propagate the design comb
-            if o['amps']:
+            # ---- oracle 2: propagate the design comb (not through Raman spans: the estimated gain is an input here)
+            if any(s_.get('raman') for s_ in o['snap']):
+                ctx.count('oms_raman_not_propagated')
+            elif o['amps']:
                 try:
                     rec = propagate_oms(built, o, p0, pref_ch)
                 except Exception as e:
@@ -826,11 +884,14 @@ def oracle_static(ctx, c, built, o, p0, pref_ch, pref_total, desc, case):
     for idx, n in enumerate(o['nodes']):
         if isinstance(n, E.Fiber):
             f = fibs[n.uid]
-            p -= f['loss']
+            # a RamanFiber gives back the gain estimated at its designed input power
+            p -= f['loss'] - (snaps[n.uid]['g_cached'] if snaps[n.uid].get('raman') else 0.0)
             if f['dsl'] is not None:
                 j, real, first = idx, 0.0, None
                 while j >= 0 and isinstance(o['nodes'][j], (E.Fiber, E.Fused)):
                     real += float(o['nodes'][j].loss)
+                    if snaps[o['nodes'][j].uid].get('raman'):
+                        real -= snaps[o['nodes'][j].uid]['g_cached']
                     first = o['nodes'][j]
                     j -= 1
                 span_excess = f['dsl'] - real
@@ -892,7 +953,8 @@ def oracle_static(ctx, c, built, o, p0, pref_ch, pref_total, desc, case):
                     if run and isinstance(run[0], E.Fiber) and fibs[run[0].uid]['dsl'] is not None:
                         nloss = fibs[run[0].uid]['dsl']          # the cached design loss (checked against the real one above)
                     else:
-                        nloss = sum(float(x.loss) for x in run)
+                        # before the walk reaches a RamanFiber its gain is estimated at the reference power
+                        nloss = sum(float(x.loss) - (snaps[x.uid]['g_ref'] if snaps[x.uid].get('raman') else 0.0) for x in run)
                     exp_dp, tie = expected_rule(span, nloss)
                 if tie < 1e-9:
                     ctx.count('rule_not_judged_tie')
